@@ -47,6 +47,9 @@ type C01Case struct {
 	Reqs      []C01Req `json:"reqs"`
 	Pipelined bool     `json:"pipelined"`
 	Cuts      []int    `json:"cuts,omitempty"`
+	// PAC: the same route, chosen by a PAC script (DIRECT, or PROXY <the upstream>) instead of the static configuration:
+	// what the script is shown of a request must not change what is forwarded.
+	PAC bool `json:"pac,omitempty"`
 }
 
 // ---------------------------------------------------------------------------
@@ -113,6 +116,10 @@ func getEnv() (*c01Env, error) {
 		mk("direct-rht", ProxyOpts{DenyDomains: deny, ReadHeaderTimeout: c01RHT})
 		mk("upstream-rht", ProxyOpts{Upstream: "http://" + e.upstream.Addr, DenyDomains: deny, ReadHeaderTimeout: c01RHT})
 		mk("mitm-rht", ProxyOpts{MITM: true, DenyDomains: deny, ReadHeaderTimeout: c01RHT})
+		// the same three routes selected by a PAC script
+		mk("direct-pac", ProxyOpts{DenyDomains: deny, PAC: `function FindProxyForURL(url, host) { return "DIRECT"; }`})
+		mk("upstream-pac", ProxyOpts{DenyDomains: deny, PAC: `function FindProxyForURL(url, host) { return "PROXY ` + e.upstream.Addr + `"; }`})
+		mk("mitm-pac", ProxyOpts{MITM: true, DenyDomains: deny, PAC: `function FindProxyForURL(url, host) { if (url.substring(0, 6) == "https:") return "DIRECT"; return "PROXY 127.0.0.1:1"; }`})
 		env = e
 	})
 	return env, envErr
@@ -263,6 +270,7 @@ func genC01(t *rapid.T) C01Case {
 		c.Cuts = append(c.Cuts, rapid.IntRange(1, 3000).Draw(t, "cut"))
 	}
 	sort.Ints(c.Cuts)
+	c.PAC = rapid.IntRange(0, 3).Draw(t, "pac") == 0
 	return c
 }
 
@@ -385,6 +393,8 @@ func runC01once(e *c01Env, c C01Case) (fails []vstat.Failure) {
 	}
 	if slow {
 		px = e.proxies[c.Config+"-rht"]
+	} else if c.PAC {
+		px = e.proxies[c.Config+"-pac"]
 	}
 	hop := map[string]*Peer{"direct": e.origin, "upstream": e.upstream, "mitm": e.torigin}[c.Config]
 	key := func(clause string) string { return "C01:" + c.Config + ":" + clause }
